@@ -179,7 +179,8 @@ def check(prog: Program, tier: str) -> Result:
     _c05.adopt_memo_rule(prog, res, "R18.10", anchors,
                          "import normalisation must hold for ANY layout of the imported packages: a memoised lookup answers for the layout of an earlier call "
                          "(another working directory, an edited or moved module), so star-imports are expanded to names the module no longer exports")
-    res.floors.update({"R18.1": 6, "R18.2": 2, "R18.4": 1, "R18.5": 1, "R18.10": 3, "R18.11": 2, "R18.12": 1, "R18.13": 3, "R18.14": 2, "R18.15": 3, "R18.16": 1, "R18.17": 2})
+    _r18_18(prog, res)
+    res.floors.update({"R18.1": 6, "R18.2": 2, "R18.4": 1, "R18.5": 1, "R18.10": 3, "R18.11": 2, "R18.12": 1, "R18.13": 3, "R18.14": 2, "R18.15": 3, "R18.16": 1, "R18.17": 2, "R18.18": 1})
     res.analysed["importfrom_constructions"] = n
     return res
 
@@ -595,6 +596,41 @@ def _r18_12(prog: Program, res: Result) -> None:
                    "imports under a try statement are taken out of the moved set" if ok else
                    "nothing takes the imports under `try:` out of the moved set: `try: import tomllib / except ImportError: import tomli as tomllib` becomes "
                    "`try: pass ...` plus an unguarded `import tomllib` at module level")
+
+
+# ------------------------------------------------------------------------------------------------ R18.18
+def _r18_18(prog: Program, res: Result) -> None:
+    """Contradiction rule for the standard-library table.  A function that asks `X in constants.PYTHON_311_STDLIB` more than once
+    decides with one test WHETHER an import is handled and with another HOW: move_imports_to_toplevel selects the movable
+    imports with the first test and chooses between "re-insert at the top" and "skip" with the second.  If one test reduces
+    the module name to its first component (`email.utils` -> `email`) and the other asks for the full name, an import passes
+    the first and fails the second: it is removed from the function and never put back.  Obligation: all membership tests
+    against the table inside one function use the same key form (full dotted name, or first component)."""
+    n = 0
+    for fn in prog.funcs.values():
+        forms = {}
+        for c in walk_own(fn.node):
+            if not (isinstance(c, ast.Compare) and len(c.ops) == 1 and isinstance(c.ops[0], (ast.In, ast.NotIn)) and "PYTHON_311_STDLIB" in norm(c.comparators[0])):
+                continue
+            key = c.left
+            texts = [norm(key)]
+            if isinstance(key, ast.Name):
+                texts += [norm(v) for _s, v in bindings(fn).get(key.id, []) if v is not None]
+            first = any(".split('.')[0]" in t or ".partition('.')[0]" in t for t in texts)
+            forms.setdefault("first component" if first else "full name", []).append(c)
+        total = sum(len(v) for v in forms.values())
+        if total < 2:
+            continue
+        n += 1
+        ok = len(forms) == 1
+        where = (forms.get("first component") or [None])[0] if not ok else next(iter(forms.values()))[0]
+        res.decide(ok, "R18.18", fn.loc(where), fn.fq, f"{total} tests against the standard-library table",
+                   f"all by {next(iter(forms))}" if ok else
+                   f"{len(forms.get('full name', []))} test(s) ask for the full module name, {len(forms.get('first component', []))} for its first component: a dotted "
+                   "standard-library module that is not listed itself (`email.utils`, `importlib.util`) passes one and fails the other - the from-import is taken out of "
+                   "its function and the re-insertion is skipped")
+    if n == 0:
+        res.undecided("R18.18", "pyrefact/", "package", "functions with several standard-library tests", "none found")
 
 
 # ------------------------------------------------------------------------------------------------ R18.11
